@@ -1,5 +1,5 @@
 (* C12 - Size and range limits are exact; accepted values are never altered to fit. *)
-From Ctap Require Import Base Schema Wire Utf8 Typed WellTyped Procs Inst Tables Limits WireP TypedP FramingP SerP RoundTripP ObRequestSide ObEnvRt FnShapes Shapes ObShapeStrings ObShapeFilters.
+From Ctap Require Import Base Schema Wire Utf8 Typed WellTyped Procs Inst Tables Limits WireP TypedP FramingP SerP RoundTripP ObRequestSide ObEnvRt FnShapes Shapes ObShapeStrings ObShapeFilters LimitsP.
 Local Open Scope string_scope.
 Local Open Scope Z_scope.
 
@@ -73,6 +73,21 @@ Proof.
   exact (forallb_In (fun f => env_rt (gen_env f)) all_feats f generated_env_rt Hf).
 Qed.
 
+(* WHATEVER IS ACCEPTED IS WITHIN THE LIMITS - for EVERY input byte string, canonical or not, at the
+   declarations regenerated from /repo in every feature configuration: byte strings and text never exceed
+   their capacity (also after the lossy helpers), text is valid UTF-8, exact-length arrays have their length,
+   integers lie in their type's range, lists never exceed their capacity, records list exactly the declared
+   members, enumerations hold a declared variant, the filtered parameter list holds known algorithms only *)
+Theorem c12_accepted_is_within_limits : forall f t i v r, In f all_feats ->
+  bys i -> decode (gen_env f) t i = Ok (v, r) -> within (gen_env f) type_fuel t v = true.
+Proof.
+  intros f t i v r Hf. apply decode_within.
+  exact (forallb_In (fun f => env_rt (gen_env f)) all_feats f generated_env_rt Hf).
+Qed.
+Theorem c12_accepted_is_within_limits_generic : forall e k t i v r, env_rt e = true -> bys i ->
+  dec e k t i = Ok (v, r) -> within e k t v = true /\ bys r.
+Proof. intros e k t i v r He Hb H. exact (dec_within e He k t i v r Hb H). Qed.
+
 (* tie to the source *)
 Theorem c12_generated_conforms :
   forallb (fun f => request_side_conforms (gen_env f) (spec_env f)) all_feats = true.
@@ -103,3 +118,5 @@ Eval vm_compute in "ASSUMPTIONS c12_count_exact". Print Assumptions c12_count_ex
 Eval vm_compute in "ASSUMPTIONS c12_accepted_values_unaltered". Print Assumptions c12_accepted_values_unaltered.
 Eval vm_compute in "ASSUMPTIONS c12_modelled_functions_unchanged_strings". Print Assumptions c12_modelled_functions_unchanged_strings.
 Eval vm_compute in "ASSUMPTIONS c12_modelled_functions_unchanged_filters". Print Assumptions c12_modelled_functions_unchanged_filters.
+Eval vm_compute in "ASSUMPTIONS c12_accepted_is_within_limits". Print Assumptions c12_accepted_is_within_limits.
+Eval vm_compute in "ASSUMPTIONS c12_accepted_is_within_limits_generic". Print Assumptions c12_accepted_is_within_limits_generic.
